@@ -168,6 +168,27 @@ func Start(t *testing.T, prop string) *Run {
 	return r
 }
 
+// Detached returns a Run that only knows the list of known findings (IsKnown / Excluded / KnownHit work, nothing is
+// reported): for native fuzz targets, whose body has no *testing.T of a top-level test.
+func Detached(prop string) *Run {
+	r := &Run{Prop: prop, Test: "detached", Tier: os.Getenv("VERIF_TIER"), Seed: envInt("VERIF_SEED", 1), start: time.Now(),
+		classes: map[string]int64{}, hashes: map[uint64]struct{}{}, knownHits: map[string]int64{}, excluded: map[string]int64{},
+		extra: map[string]any{}, finished: true}
+	if p := os.Getenv("VERIF_KNOWN"); p != "" {
+		if b, err := os.ReadFile(p); err == nil {
+			var all []KnownFinding
+			if json.Unmarshal(b, &all) == nil {
+				for _, k := range all {
+					if k.Property == prop {
+						r.known = append(r.known, k)
+					}
+				}
+			}
+		}
+	}
+	return r
+}
+
 // Thorough reports whether the thorough tier is running.
 func (r *Run) Thorough() bool { return r.Tier == "thorough" }
 
